@@ -454,6 +454,33 @@ def _pair_distance(n: T, el: T) -> Optional[str]:
     return None
 
 
+def _pair_pathlength(n: T, el: T) -> bool:
+    """n = X.distances[j] - X.distances[i] for the pair element `el`: the
+    path length travelled between the two poses, not the distance of their
+    positions"""
+    n = Interp.unname(n)
+    if n.op != "binop" or n.args[0] != "Sub":
+        return False
+    out = []
+    for side in (n.args[1], n.args[2]):
+        side = Interp.unname(side)
+        if side.op == "sub" and side.args[0].op == "attr" and \
+                side.args[0].args[1] == "distances" and \
+                side.args[1] in (tm.sub(el, const(0)), tm.sub(el, const(1))):
+            out.append(side.args[1])
+        else:
+            return False
+    return out[0] is not out[1]
+
+
+def _pathlength_evidence(t: T, IDPAIRS: T) -> bool:
+    pe = per_element(t)
+    if pe is None or pe[3] or pe[2] is not IDPAIRS:
+        return False
+    el = T("elem", IDPAIRS, pe[1])
+    return any(_pair_pathlength(x, el) for x in pe[0].walk())
+
+
 def _dist_array(t: T, IDPAIRS: T) -> Optional[str]:
     """'ref'/'est' if t = array([norm(X.pos[i] - X.pos[j]) for i,j in pairs])
     (or its vectorised spelling)"""
@@ -522,6 +549,15 @@ def _point_distance(ctx, res, member, err, IDPAIRS, family):
             dbase = den.args[0] if den.op == "sub" else den
             nbase = num.args[0] if num.op == "sub" else num
             which = _dist_array(dbase, IDPAIRS)
+            if which is None and _pathlength_evidence(dbase, IDPAIRS):
+                ctx.ob("C02.4", res.func, False,
+                       f"RPE[{member}]: the per-pair 'distance' is "
+                       f"distances[j] - distances[i], the path length "
+                       f"travelled between the two poses — the property "
+                       f"compares the Euclidean distances of the pair's "
+                       f"positions (they differ on every path that is not a "
+                       f"straight line)", key=f"C02.4:{member}:ratio")
+                return
             if which is None:
                 ctx.undecidable("C02.4", res.func, f"RPE[{member}]: divisor "
                                 f"is not a per-pair distance array over "
@@ -557,6 +593,14 @@ def _point_distance(ctx, res, member, err, IDPAIRS, family):
                 wb = _pair_distance(d.args[2], el)
                 parsed = wa is not None and wb is not None
                 ok = {wa, wb} == {"ref", "est"}
+    if not parsed and _pathlength_evidence(core, IDPAIRS):
+        ctx.ob("C02.4", res.func, False,
+               f"RPE[{member}]: the per-pair 'distance' is distances[j] - "
+               f"distances[i], the path length travelled between the two "
+               f"poses — the property compares the Euclidean distances of "
+               f"the pair's positions (they differ on every path that is "
+               f"not a straight line)", key=f"C02.4:{member}:pointdist")
+        return
     if not parsed:
         ctx.undecidable("C02.4", res.func, f"RPE[{member}]: point-distance "
                         f"error is not |D_a - D_b| over per-pair distance "
